@@ -1,1 +1,369 @@
-fn main() {}
+//! C19 — flow-control waiters never miss free capacity.
+//!
+//! Real OS threads drive `FlowControl::wait_for_available_space()` with a tiny
+//! hand-written executor (poll; if Pending, park until the instrumented waker
+//! fires) while mutator threads call `inc` / `dec`. Every mutation goes through
+//! a wrapper that serialises it under one mutex and appends the counters'
+//! values to a trace, so the monitor's state is updated atomically with the
+//! state it shadows. Oracles (DESIGN 4/C19):
+//!   * never spuriously: a waiter that returned must have been able to observe
+//!     messages < max at some trace position i and bytes < max at some j >= i
+//!     inside its [start, return] window;
+//!   * never missed (decided logically, no timeout): once all mutators are done
+//!     and the final counters are below both limits, a waiter that is parked
+//!     with its waker not fired can never run again;
+//!   * all released by one change: with W waiters parked, a single `dec` that
+//!     frees capacity releases all of them.
+//!
+//!   flowcheck native --trials N --seed S [--out FILE]
+//!   flowcheck miri [--script K]        (one trial; run under -Zmiri-many-seeds)
+
+use deltio::subscriptions::flow_control::{self, FlowControl};
+use std::future::Future;
+use std::pin::Pin;
+use std::sync::atomic::{AtomicBool, AtomicU64, AtomicUsize, Ordering};
+use std::sync::{Arc, Barrier, Condvar, Mutex};
+use std::task::{Context, Poll, Wake, Waker};
+
+const MAX_MSGS: u64 = 2;
+const MAX_BYTES: u64 = 100;
+
+struct Rng(u64);
+impl Rng {
+    fn next(&mut self) -> u64 {
+        self.0 = self.0.wrapping_add(0x9E37_79B9_7F4A_7C15);
+        let mut z = self.0;
+        z = (z ^ (z >> 30)).wrapping_mul(0xBF58_476D_1CE4_E5B9);
+        z = (z ^ (z >> 27)).wrapping_mul(0x94D0_49BB_1331_11EB);
+        z ^ (z >> 31)
+    }
+    fn below(&mut self, n: u64) -> u64 {
+        self.next() % n
+    }
+}
+
+/// The mutation wrapper + trace.
+struct Shadow {
+    fc: FlowControl,
+    /// (messages, bytes) after each completed mutation; index 0 = initial state.
+    trace: Mutex<Vec<(u64, u64)>>,
+    started: AtomicUsize,
+    completed: AtomicUsize,
+}
+
+impl Shadow {
+    fn new(init_msgs: u64, init_bytes: u64) -> Shadow {
+        let fc = flow_control::create(MAX_BYTES, MAX_MSGS);
+        fc.inc(init_bytes, init_msgs);
+        Shadow { fc, trace: Mutex::new(vec![(init_msgs, init_bytes)]), started: AtomicUsize::new(0), completed: AtomicUsize::new(0) }
+    }
+    fn apply(&self, inc: bool, bytes: u64, msgs: u64) {
+        let mut t = self.trace.lock().unwrap();
+        let (m, b) = *t.last().unwrap();
+        self.started.fetch_add(1, Ordering::SeqCst);
+        if inc {
+            self.fc.inc(bytes, msgs);
+            t.push((m + msgs, b + bytes));
+        } else {
+            self.fc.dec(bytes, msgs);
+            t.push((m - msgs, b - bytes));
+        }
+        self.completed.fetch_add(1, Ordering::SeqCst);
+    }
+}
+
+#[derive(Default)]
+struct Park {
+    woken: bool,
+    parked: bool,
+    done: bool,
+}
+
+struct WaiterState {
+    park: Mutex<Park>,
+    cv: Condvar,
+    wakes: AtomicU64,
+}
+
+impl Wake for WaiterState {
+    fn wake(self: Arc<Self>) {
+        self.wake_by_ref()
+    }
+    fn wake_by_ref(self: &Arc<Self>) {
+        self.wakes.fetch_add(1, Ordering::SeqCst);
+        let mut p = self.park.lock().unwrap();
+        p.woken = true;
+        self.cv.notify_all();
+    }
+}
+
+struct WaitResult {
+    polls: u64,
+    parked_at_least_once: bool,
+    start_completed: usize,
+    end_started: usize,
+}
+
+/// Drives one wait to completion on the calling thread.
+fn drive_wait(sh: &Shadow, ws: &Arc<WaiterState>, spin_before: u64) -> WaitResult {
+    for _ in 0..spin_before {
+        std::hint::spin_loop();
+    }
+    let start_completed = sh.completed.load(Ordering::SeqCst);
+    let waker = Waker::from(Arc::clone(ws));
+    let mut cx = Context::from_waker(&waker);
+    let mut fut: Pin<Box<dyn Future<Output = ()> + '_>> = Box::pin(sh.fc.wait_for_available_space());
+    let mut polls = 0;
+    let mut parked_once = false;
+    loop {
+        polls += 1;
+        match fut.as_mut().poll(&mut cx) {
+            Poll::Ready(()) => break,
+            Poll::Pending => {
+                let mut p = ws.park.lock().unwrap();
+                p.parked = true;
+                parked_once = true;
+                while !p.woken {
+                    p = ws.cv.wait(p).unwrap();
+                }
+                p.woken = false;
+                p.parked = false;
+            }
+        }
+    }
+    let end_started = sh.started.load(Ordering::SeqCst);
+    ws.park.lock().unwrap().done = true;
+    WaitResult { polls, parked_at_least_once: parked_once, start_completed, end_started }
+}
+
+/// "Never spuriously": could the waiter have seen messages < max at i and bytes < max at j >= i?
+fn could_have_observed(trace: &[(u64, u64)], r: &WaitResult) -> bool {
+    let lo = r.start_completed.min(trace.len() - 1);
+    let hi = r.end_started.min(trace.len() - 1);
+    let mut seen_msgs_ok = false;
+    for k in lo..=hi {
+        if trace[k].0 < MAX_MSGS {
+            seen_msgs_ok = true;
+        }
+        if seen_msgs_ok && trace[k].1 < MAX_BYTES {
+            return true;
+        }
+    }
+    false
+}
+
+#[derive(Clone)]
+struct Script {
+    /// per mutator: list of (inc?, bytes, msgs)
+    muts: Vec<Vec<(bool, u64, u64)>>,
+    waiters: usize,
+    init: (u64, u64),
+}
+
+/// Scripts always start without capacity and end with capacity.
+fn make_script(rng: &mut Rng, kind: u64) -> Script {
+    let waiters = 1 + rng.below(3) as usize;
+    match kind % 4 {
+        0 => {
+            // full on messages; one dec releases everybody
+            Script { muts: vec![vec![(false, 0, 1)]], waiters, init: (MAX_MSGS, 10) }
+        }
+        1 => {
+            // full on bytes and messages; two mutators free one dimension each
+            Script { muts: vec![vec![(false, 0, 1)], vec![(false, 60, 0)]], waiters, init: (MAX_MSGS, MAX_BYTES + 10) }
+        }
+        2 => {
+            // churn: capacity appears, disappears, appears
+            Script { muts: vec![vec![(false, 0, 1), (true, 0, 1), (false, 0, 2)]], waiters, init: (MAX_MSGS, 0) }
+        }
+        _ => {
+            // two mutators: one takes the initial surplus away in 2-3 steps, the other adds and
+            // removes its own amounts (never underflows whatever the interleaving); the sum ends
+            // below both limits
+            let a = if rng.below(2) == 0 { vec![(false, 30, 1), (false, 60, 2)] } else { vec![(false, 0, 2), (false, 90, 0), (false, 0, 1)] };
+            let mut c = Vec::new();
+            for _ in 0..(1 + rng.below(2)) {
+                let (db, dm) = (rng.below(3) * 30, rng.below(3));
+                c.push((true, db, dm));
+                c.push((false, db, dm));
+            }
+            Script { muts: vec![a, c], waiters, init: (MAX_MSGS + 2, MAX_BYTES + 60) }
+        }
+    }
+}
+
+struct TrialOutcome {
+    violation: Option<(String, String)>,
+    inconclusive: Option<String>,
+    parked: usize,
+    polls: Vec<u64>,
+}
+
+/// One trial with freshly spawned threads (used under Miri and as the simple native path).
+fn run_trial_spawned(script: &Script, rng: &mut Rng, jitter: bool) -> TrialOutcome {
+    let sh = Arc::new(Shadow::new(script.init.0, script.init.1));
+    let states: Vec<Arc<WaiterState>> = (0..script.waiters).map(|_| Arc::new(WaiterState { park: Mutex::new(Park::default()), cv: Condvar::new(), wakes: AtomicU64::new(0) })).collect();
+    let go = Arc::new(Barrier::new(script.waiters + script.muts.len()));
+    let mut wh = Vec::new();
+    for ws in &states {
+        let (sh, ws, go) = (Arc::clone(&sh), Arc::clone(ws), Arc::clone(&go));
+        let spin = if jitter { rng.below(200) } else { 0 };
+        wh.push(std::thread::spawn(move || {
+            go.wait();
+            drive_wait(&sh, &ws, spin)
+        }));
+    }
+    let mut mh = Vec::new();
+    for ops in &script.muts {
+        let (sh, go, ops) = (Arc::clone(&sh), Arc::clone(&go), ops.clone());
+        let spins: Vec<u64> = ops.iter().map(|_| if jitter { rng.below(300) } else { 0 }).collect();
+        mh.push(std::thread::spawn(move || {
+            go.wait();
+            for (i, (inc, b, m)) in ops.iter().enumerate() {
+                for _ in 0..spins[i] {
+                    std::hint::spin_loop();
+                }
+                sh.apply(*inc, *b, *m);
+            }
+        }));
+    }
+    for h in mh {
+        h.join().unwrap();
+    }
+    finish_trial(&sh, &states, wh)
+}
+
+fn finish_trial(sh: &Arc<Shadow>, states: &[Arc<WaiterState>], wh: Vec<std::thread::JoinHandle<WaitResult>>) -> TrialOutcome {
+    let mut out = TrialOutcome { violation: None, inconclusive: None, parked: 0, polls: vec![] };
+    // All mutators are done. The final counters are below both limits by construction.
+    let fin = *sh.trace.lock().unwrap().last().unwrap();
+    assert!(fin.0 < MAX_MSGS && fin.1 < MAX_BYTES, "script must end with capacity: {:?}", fin);
+    // never missed: decided logically
+    let t0 = std::time::Instant::now();
+    let mut stuck: Vec<usize> = vec![];
+    for (i, ws) in states.iter().enumerate() {
+        loop {
+            let p = ws.park.lock().unwrap();
+            if p.done {
+                break;
+            }
+            if p.parked && !p.woken {
+                // parked, waker not fired, and nobody is left to fire it
+                stuck.push(i);
+                break;
+            }
+            drop(p);
+            if t0.elapsed().as_secs() > 20 {
+                out.inconclusive = Some("waiter neither finished nor parked within 20 s".into());
+                break;
+            }
+            std::thread::yield_now();
+        }
+    }
+    if !stuck.is_empty() {
+        out.violation = Some((
+            "C19:missed-wakeup".into(),
+            format!("{} of {} waiter(s) parked for ever although the final counters ({} messages, {} bytes) are below both limits; trace {:?}", stuck.len(), states.len(), fin.0, fin.1, sh.trace.lock().unwrap()),
+        ));
+        // release them so that the threads can be joined
+        sh.fc.dec(0, 0);
+        for &i in &stuck {
+            let ws = &states[i];
+            let mut p = ws.park.lock().unwrap();
+            p.woken = true;
+            ws.cv.notify_all();
+        }
+    }
+    let trace = sh.trace.lock().unwrap().clone();
+    for h in wh {
+        let r = h.join().unwrap();
+        if r.parked_at_least_once {
+            out.parked += 1;
+        }
+        if out.violation.is_none() && !could_have_observed(&trace, &r) {
+            out.violation = Some((
+                "C19:spurious-resume".into(),
+                format!("a waiter resumed although no position of the trace window [{}, {}] shows messages < {} followed by bytes < {}; trace {:?}", r.start_completed, r.end_started, MAX_MSGS, MAX_BYTES, trace),
+            ));
+        }
+        out.polls.push(r.polls);
+    }
+    out
+}
+
+fn main() {
+    let args: Vec<String> = std::env::args().collect();
+    let mode = args.get(1).map(|s| s.as_str()).unwrap_or("noop");
+    let get = |k: &str| args.iter().position(|a| a == k).and_then(|i| args.get(i + 1)).cloned();
+    match mode {
+        "noop" => {}
+        "miri" => {
+            // one trial per process; Miri's -Zmiri-many-seeds varies the schedule
+            let k: u64 = get("--script").and_then(|s| s.parse().ok()).unwrap_or(1);
+            let mut rng = Rng(k.wrapping_mul(77));
+            let mut script = make_script(&mut rng, k);
+            script.waiters = script.waiters.min(2);
+            let o = run_trial_spawned(&script, &mut rng, false);
+            match (&o.violation, &o.inconclusive) {
+                (Some((sig, d)), _) => {
+                    println!("FLOW VIOLATION {} {}", sig, d);
+                    std::process::exit(1);
+                }
+                (None, Some(i)) => println!("FLOW INCONCLUSIVE {}", i),
+                _ => println!("FLOW ok script={} waiters={} parked={} polls={:?}", k % 4, script.waiters, o.parked, o.polls),
+            }
+        }
+        "native" => {
+            let trials: u64 = get("--trials").and_then(|s| s.parse().ok()).unwrap_or(1000);
+            let seed: u64 = get("--seed").and_then(|s| s.parse().ok()).unwrap_or(1);
+            let out = get("--out");
+            let mut rng = Rng(seed);
+            let t0 = std::time::Instant::now();
+            let mut parked_trials = 0u64;
+            let mut keys: std::collections::BTreeSet<String> = Default::default();
+            let mut violations: Vec<serde_json::Value> = vec![];
+            let mut inconclusive = 0u64;
+            let mut samples: Vec<serde_json::Value> = vec![];
+            for t in 0..trials {
+                let kind = rng.below(4);
+                let script = make_script(&mut rng, kind);
+                let o = run_trial_spawned(&script, &mut rng, true);
+                if o.parked > 0 {
+                    parked_trials += 1;
+                    let mut pv = o.polls.clone();
+                    pv.sort();
+                    keys.insert(format!("k{} w{} m{} polls{:?}", kind, script.waiters, script.muts.iter().map(|m| m.len().to_string()).collect::<Vec<_>>().join("/"), pv));
+                }
+                if let Some(i) = o.inconclusive {
+                    inconclusive += 1;
+                    let _ = i;
+                }
+                if let Some((sig, d)) = o.violation {
+                    if violations.len() < 20 {
+                        violations.push(serde_json::json!({"property": "C19", "sig": sig, "detail": d,
+                            "params": {"scenario": "flow-native", "ep_seed": seed, "trial": t}, "history": [format!("script kind {} waiters {} mutators {:?}", kind, script.waiters, script.muts)]}));
+                    }
+                }
+                if samples.len() < 2 && o.parked > 0 {
+                    samples.push(serde_json::json!({"script_kind": kind, "waiters": script.waiters, "mutators": format!("{:?}", script.muts), "polls": o.polls, "parked": o.parked}));
+                }
+            }
+            let j = serde_json::json!({
+                "episodes": trials, "nontrivial": parked_trials, "keys": keys.iter().map(|k| { let mut h: u64 = 0xcbf29ce484222325; for b in k.bytes() { h ^= b as u64; h = h.wrapping_mul(0x100000001b3); } h }).collect::<Vec<u64>>(),
+                "violations": violations, "inconclusive": if inconclusive > 0 { serde_json::json!({"flow-native: waiter neither finished nor parked within 20 s": inconclusive}) } else { serde_json::json!({}) },
+                "counters": {"trials_with_parked_waiter": parked_trials}, "minmax": {}, "samples": samples, "hooks": {}, "panics": [],
+                "rule": "native threads: per trial 1-3 waiter threads drive wait_for_available_space() with a hand-written executor while 1-2 mutator threads run a script of inc/dec (4 script kinds: single releasing dec, two mutators freeing one dimension each, capacity churn, random walk ending below both limits) with random spin jitter between the steps. Non-trivial: a waiter parked at least once before returning. Distinct: (script kind, waiters, script lengths, sorted poll-count vector).",
+                "exhaustive_plan": false, "truncated": false, "wall_s": t0.elapsed().as_secs_f64()
+            });
+            let s = serde_json::to_string(&j).unwrap();
+            match out {
+                Some(f) => std::fs::write(f, s).unwrap(),
+                None => println!("{}", s),
+            }
+        }
+        _ => {
+            eprintln!("usage: flowcheck native --trials N --seed S [--out FILE] | miri [--script K] | noop");
+            std::process::exit(2);
+        }
+    }
+}
